@@ -257,6 +257,45 @@ theorem uwsgi_decode_header (env : List (Bytes × Bytes)) (vars body : Bytes)
   simp only [ne_eq, not_true_eq_false, l1, or_self, ↓reduceIte, List.take_left, List.drop_left]
   rw [h1, uwsgi_decodeVars env h2 _ (by have := uwsgi_pairs_length env; omega)]
 
+theorem uwsgi_addAll_none (env : List (Bytes × Bytes)) :
+    ∀ acc, Uwsgi.addAll acc env = none → ∃ p ∈ env, p.1.length > 65535 ∨ p.2.length > 65535 := by
+  induction env with
+  | nil => intro acc h; simp [Uwsgi.addAll] at h
+  | cons p ps ih =>
+    intro acc h
+    obtain ⟨k, v⟩ := p
+    have hu : Extracted.C09.ushrtMax = 65535 := rfl
+    simp only [Uwsgi.addAll, hu] at h
+    by_cases hb : k.length > 65535 ∨ v.length > 65535
+    · exact ⟨(k, v), by simp, hb⟩
+    · simp only [hb, ↓reduceIte] at h
+      obtain ⟨q, hq, hq2⟩ := ih _ h
+      exact ⟨q, by simp [hq], hq2⟩
+
+/-! ### unframed body hand-over (SCGI, uwsgi, proxy with Content-Length) -/
+
+theorem rawFold_inv (segs : List Bytes) : ∀ st : RawSt,
+    (segs.foldl RawSt.arrive st).out ++ (segs.foldl RawSt.arrive st).pending =
+      st.out ++ st.pending ++ segs.flatten := by
+  induction segs with
+  | nil => intro st; simp
+  | cons s tl ih =>
+    intro st
+    simp only [List.foldl_cons, List.flatten_cons]
+    rw [ih]
+    simp [RawSt.arrive, RawSt.moveAll, List.append_assoc]
+
+theorem rawRun_out (hdr : Bytes) (bodyLen : Int) (seg0 : Bytes) (segs : List Bytes) :
+    (RawSt.run hdr bodyLen seg0 segs).out = hdr ++ (seg0 :: segs).flatten := by
+  simp only [RawSt.run, RawSt.moveAll]
+  rw [rawFold_inv]
+  unfold RawSt.startBody
+  split <;> simp [List.append_assoc]
+
+theorem rawRun_pending (hdr : Bytes) (bodyLen : Int) (seg0 : Bytes) (segs : List Bytes) :
+    (RawSt.run hdr bodyLen seg0 segs).pending = [] := by
+  simp [RawSt.run, RawSt.moveAll]
+
 /-! ### envp block of mod_cgi -/
 
 theorem envpDecode_encode (env : List (Bytes × Bytes))
